@@ -251,6 +251,10 @@ func (tnc *TNC) runControlLoop() error {
 				if tnc.ptt != nil {
 					tnc.ptt.SetPTT(msg.Bool())
 				}
+			case cmdConnected:
+				// Data frames may follow right behind, so this can not wait until the
+				// goroutine waiting for the connection (Dial/Accept) gets to see the message.
+				tnc.connected = true
 			case cmdDisconnected:
 				tnc.state = Disconnected
 				tnc.eof()
